@@ -186,3 +186,56 @@ def run_for(ctx, rep, prop: str, floor: int):
     n = check_constructor_binding(ctx, rep, rule, SCOPES[prop], floor)
     rep.analysed[f'constructor_calls_bound'] = n
     return n
+
+
+def check_json_defaults(ctx, rep, rule: str, only=None) -> int:
+    """a from_json that reads an optional key with a literal default (`v = data.get('k', D)`) and hands v to the constructor parameter p must use the constructor's own default
+    for p: otherwise an object built from a specification that does not mention the option behaves differently from one built directly (and from what the constructor documents)."""
+    from .loader import norm_text
+    from .report import where
+    n = 0
+    for ci in sorted(ctx.classes.classes.values(), key=lambda c: c.qualname):
+        if only is not None and not only(ci):
+            continue
+        fj = ci.methods.get('from_json')
+        init = ci.resolve('__init__')
+        if fj is None or init is None or len(fj.args.args) < 2:
+            continue
+        data = fj.args.args[1].arg
+        gets = {}
+        for st in ast.walk(fj):
+            if isinstance(st, ast.Assign) and len(st.targets) == 1 and isinstance(st.value, ast.Call) and isinstance(st.value.func, ast.Attribute) and st.value.func.attr == 'get' \
+                    and isinstance(st.value.func.value, ast.Name) and st.value.func.value.id == data and len(st.value.args) == 2 and isinstance(st.value.args[1], ast.Constant):
+                t = st.targets[0]
+                if isinstance(t, ast.Name):
+                    gets[t.id] = st.value
+        if not gets:
+            continue
+        params = init[1].args.args[1:]
+        defaults = init[1].args.defaults
+        dmap = {}
+        for p_, d_ in zip(params[len(params) - len(defaults):], defaults):
+            dmap[p_.arg] = d_
+        for p_, d_ in zip(init[1].args.kwonlyargs, init[1].args.kw_defaults):
+            if d_ is not None:
+                dmap[p_.arg] = d_
+        for c in ast.walk(fj):
+            if not (isinstance(c, ast.Call) and isinstance(c.func, ast.Name) and c.func.id == 'cls'):
+                continue
+            bound = {}
+            for i, a in enumerate(c.args):
+                if isinstance(a, ast.Name) and a.id in gets and i < len(params):
+                    bound[params[i].arg] = a.id
+            for k in c.keywords:
+                if k.arg and isinstance(k.value, ast.Name) and k.value.id in gets:
+                    bound[k.arg] = k.value.id
+            for pname, var in sorted(bound.items()):
+                if pname not in dmap or not isinstance(dmap[pname], ast.Constant):
+                    continue
+                n += 1
+                jd, cd = gets[var].args[1].value, dmap[pname].value
+                same = (jd == cd and type(jd) is type(cd)) or (jd is None and cd is None)
+                rep.check(rule, f"{ci.qualname}.from_json::default-of-{pname}", same, where(ci.module, gets[var]), {'json_default': repr(jd), 'constructor_default': repr(cd)},
+                          f"{ci.name}.from_json reads `{norm_text(gets[var])[:50]}` and hands it to the constructor parameter `{pname}`, whose own default is {cd!r}: a specification that does "
+                          f"not mention the option builds an object configured with {jd!r} where the constructor (and its documentation) means {cd!r}")
+    return n
